@@ -129,7 +129,10 @@ fn peek_upload_len(_server: &Server, _req: &CoapRequest<CEp>) -> Option<usize> {
 }
 
 fn key_of(spec: &ReqSpec, ep: u32) -> (u32, u8, Vec<Vec<u8>>) {
-    (ep, spec.code, spec.path.clone())
+    // transfers are keyed by (endpoint, method, path); every code that is not a request method is
+    // the same "unknown method" as far as a server is concerned
+    let method = if (1..=7).contains(&spec.code) { spec.code } else { 0xff };
+    (ep, method, spec.path.clone())
 }
 
 fn run_sequence(rep: &mut Report, r: &mut Rng, level: u32, directed_margin: Option<i64>) {
@@ -301,6 +304,11 @@ pub fn run_c11(ctx: &mut Ctx) {
     }
     // directed: far jumps against an existing buffer, and a slow crawl that stays inside the reserve
     directed_jumps(rep, if level == 0 { &[6] } else { &[0, 1, 2, 3, 4, 5, 6] });
+    directed_window(rep, &mut r, if level == 0 { 2 } else { (budget / 20).max(40) as usize });
+    if cfg!(has_block_hook) {
+        rep.floor("window_jumps_rejected", 1);
+        rep.floor("window_jumps_admitted", 1);
+    }
     rep.floor("entry_point_calls", 10);
     rep.floor("handling_errors", 1);
     if cfg!(has_block_hook) {
@@ -308,6 +316,69 @@ pub fn run_c11(ctx: &mut Ctx) {
         rep.floor("buffer_grew", 1);
     }
     rep.sample(|| format!("hex of a malformed block option used: {}", hex(&[0xff, 0xff, 0xff, 0x0f])));
+}
+
+/// Jumps aimed at the edge of the reserve, with payloads both within and beyond the declared
+/// block size: from a buffer of known length L, a block whose end lies L + 16384 + d for small d.
+fn directed_window(rep: &mut Report, r: &mut Rng, rounds: usize) {
+    if !cfg!(has_block_hook) {
+        return;
+    }
+    for _ in 0..rounds {
+        let mut server = Server::new(1280, LONG);
+        let mut app = |_q: &CoapRequest<CEp>| AppReply { code: 0x44, options: vec![], payload: vec![] };
+        let mut hist: Vec<String> = Vec::new();
+        let nsteps = r.urange(2, 5);
+        for step in 0..nsteps {
+            rep.eval();
+            let mut spec = ReqSpec::new(3, &["win"]);
+            spec.mid = step as u16;
+            let probe = CoapRequest::from_packet(Packet::from_bytes(&spec.bytes()).unwrap(), CEp::new(1));
+            let before = peek_upload_len(&server, &probe).unwrap_or(0);
+            // payload possibly much longer than the declared block
+            let plen = *r.pick(&[0usize, 1, 16, 100, 600, 1100, 1200]);
+            let szx = r.below(7) as u8;
+            let size = szx_size(szx);
+            // aim the end of the block at the edge of the reserve
+            let d: i64 = *r.pick(&[-(size as i64), -1, 0, 1, 15, 16, 17, 500, 1183, 1184, 1185, 1200, 1201, 3000]);
+            let target_end = (before as i64 + RESERVE as i64 + d).max(size as i64);
+            let num = ((target_end as usize).div_ceil(size)).max(1) - 1; // end = (num+1)*size >= target
+            if num > 4095 {
+                continue;
+            }
+            spec.block1 = Some((num as u32, true, szx));
+            spec.payload = vec![0x5a; plen];
+            hist.push(spec.describe());
+            let mut req = CoapRequest::from_packet(Packet::from_bytes(&spec.bytes()).unwrap(), CEp::new(1));
+            let ex = server.exchange_request(&mut req, &mut app);
+            let after = peek_upload_len(&server, &probe).unwrap_or(0);
+            let wit = format!("budget 1280, buffer {} bytes before the last request; sequence: {}", before, hist.join(" ; "));
+            if let Step::Panic(p) = &ex.intercept_request {
+                rep.violation(&format!("intercept_request:{}", p.sig()), p.text(), wit);
+                break;
+            }
+            let end = (num + 1) * size;
+            if after > before + plen + RESERVE {
+                rep.violation("buffer-growth-exceeds-16KiB", format!("buffer {} -> {} with a {}-byte payload (block {} x {})", before, after, plen, num, size), wit);
+                break;
+            }
+            if end > before && end - before > RESERVE {
+                if !matches!(ex.intercept_request, Step::Err(_)) || after != before {
+                    rep.violation("far-jump-not-rejected", format!("block {} x {} ends {} bytes past a {}-byte buffer (payload {} bytes): {} ; buffer now {}", num, size, end - before, before, plen, ex.summary(), after), wit);
+                    break;
+                }
+                rep.count("far_jumps_rejected");
+                rep.count("window_jumps_rejected");
+            } else {
+                if matches!(ex.intercept_request, Step::Err(_)) {
+                    // admissible jump refused: only a finding when nothing else explains it
+                    rep.count("window_admissible_jump_refused");
+                } else {
+                    rep.count("window_jumps_admitted");
+                }
+            }
+        }
+    }
 }
 
 fn directed_jumps(rep: &mut Report, szxs: &[u8]) {
